@@ -355,58 +355,93 @@ def _i_check(name):
     return eff
 
 
+NAMESETS = [["a", "b", "c"], ["id", "Id", "ID"], ['"n"', "n", "[n]"], ["x", "`x`", "X"]]
+NAMES = NAMESETS[env_int("VF_NAMES", 0)]
+A, B, C = NAMES
 CHECK_TOKS = kw("CHECK") + [("LP", "(")] + ident("a") + ident(">") + ident("1") + [("RP", ")")]
 ITEMS = [
-    ("PRIMARY KEY (a)", kw("PRIMARY", "KEY") + pid("a"), _i_pk(["a"])),
-    ("PRIMARY KEY (b, a)", kw("PRIMARY", "KEY") + pid("b", "a"), _i_pk(["b", "a"])),
-    ("PRIMARY KEY (a, b, c)", kw("PRIMARY", "KEY") + pid("a", "b", "c"), _i_pk(["a", "b", "c"])),
-    ("CONSTRAINT k PRIMARY KEY (a, b)", kw("CONSTRAINT") + ident("k") + kw("PRIMARY", "KEY") + pid("a", "b"), _i_named_pk("k", ["a", "b"])),
-    ("UNIQUE (b)", kw("UNIQUE") + pid("b"), _i_uniq(["b"])),
-    ("UNIQUE (a, b)", kw("UNIQUE") + pid("a", "b"), _i_uniq(["a", "b"])),
-    ("UNIQUE (a, b, c)", kw("UNIQUE") + pid("a", "b", "c"), _i_uniq(["a", "b", "c"])),
-    ("CONSTRAINT u UNIQUE (c)", kw("CONSTRAINT") + ident("u") + kw("UNIQUE") + pid("c"), _i_named_uniq("u", ["c"])),
-    ("CONSTRAINT u UNIQUE (a, b, c)", kw("CONSTRAINT") + ident("u") + kw("UNIQUE") + pid("a", "b", "c"), _i_named_uniq("u", ["a", "b", "c"])),
-    ("FOREIGN KEY (c) REFERENCES o (x)", kw("FOREIGN", "KEY") + pid("c") + kw("REFERENCES") + ident("o") + pid("x"), _i_fk(["c"], ["x"])),
-    ("FOREIGN KEY (a, b) REFERENCES o (x, y)", kw("FOREIGN", "KEY") + pid("a", "b") + kw("REFERENCES") + ident("o") + pid("x", "y"), _i_fk(["a", "b"], ["x", "y"])),
+    ("PRIMARY KEY (a)", kw("PRIMARY", "KEY") + pid(A), _i_pk([A])),
+    ("PRIMARY KEY (b, a)", kw("PRIMARY", "KEY") + pid(B, A), _i_pk([B, A])),
+    ("PRIMARY KEY (a, b, c)", kw("PRIMARY", "KEY") + pid(A, B, C), _i_pk([A, B, C])),
+    ("CONSTRAINT k PRIMARY KEY (a, b)", kw("CONSTRAINT") + ident("k") + kw("PRIMARY", "KEY") + pid(A, B), _i_named_pk("k", [A, B])),
+    ("UNIQUE (b)", kw("UNIQUE") + pid(B), _i_uniq([B])),
+    ("UNIQUE (a, b)", kw("UNIQUE") + pid(A, B), _i_uniq([A, B])),
+    ("UNIQUE (a, b, c)", kw("UNIQUE") + pid(A, B, C), _i_uniq([A, B, C])),
+    ("CONSTRAINT u UNIQUE (c)", kw("CONSTRAINT") + ident("u") + kw("UNIQUE") + pid(C), _i_named_uniq("u", [C])),
+    ("CONSTRAINT u UNIQUE (a, b, c)", kw("CONSTRAINT") + ident("u") + kw("UNIQUE") + pid(A, B, C), _i_named_uniq("u", [A, B, C])),
+    ("FOREIGN KEY (c) REFERENCES o (x)", kw("FOREIGN", "KEY") + pid(C) + kw("REFERENCES") + ident("o") + pid("x"), _i_fk([C], ["x"])),
+    ("FOREIGN KEY (a, b) REFERENCES o (x, y)", kw("FOREIGN", "KEY") + pid(A, B) + kw("REFERENCES") + ident("o") + pid("x", "y"), _i_fk([A, B], ["x", "y"])),
     ("FOREIGN KEY (a, b, c) REFERENCES o (x, y, z) ON DELETE CASCADE",
-     kw("FOREIGN", "KEY") + pid("a", "b", "c") + kw("REFERENCES") + ident("o") + pid("x", "y", "z") + kw("ON", "DELETE") + ident("CASCADE"),
-     _i_fk(["a", "b", "c"], ["x", "y", "z"], "CASCADE")),
-    ("CONSTRAINT f FOREIGN KEY (b) REFERENCES o (x)", kw("CONSTRAINT") + ident("f") + kw("FOREIGN", "KEY") + pid("b") + kw("REFERENCES") + ident("o") + pid("x"), _i_named_fk("f", ["b"], ["x"])),
+     kw("FOREIGN", "KEY") + pid(A, B, C) + kw("REFERENCES") + ident("o") + pid("x", "y", "z") + kw("ON", "DELETE") + ident("CASCADE"),
+     _i_fk([A, B, C], ["x", "y", "z"], "CASCADE")),
+    ("CONSTRAINT f FOREIGN KEY (b) REFERENCES o (x)", kw("CONSTRAINT") + ident("f") + kw("FOREIGN", "KEY") + pid(B) + kw("REFERENCES") + ident("o") + pid("x"), _i_named_fk("f", [B], ["x"])),
     ("CHECK (a > 1)", CHECK_TOKS, _i_check(None)),
     ("CONSTRAINT h CHECK (a > 1)", kw("CONSTRAINT") + ident("h") + CHECK_TOKS, _i_check("h")),
+    ("PRIMARY KEY (a ASC, b)", kw("PRIMARY", "KEY") + [("LP", "(")] + ident(A) + ident("ASC") + [("COMMA", ",")] + ident(B) + [("RP", ")")], _i_pk([A, B])),
+    ("PRIMARY KEY (a, b DESC, c)", kw("PRIMARY", "KEY") + [("LP", "(")] + ident(A) + [("COMMA", ",")] + ident(B) + ident("DESC") + [("COMMA", ",")] + ident(C) + [("RP", ")")], _i_pk([A, B, C])),
+    ("FOREIGN KEY (b) REFERENCES s2.o (y) ON UPDATE CASCADE", kw("FOREIGN", "KEY") + pid(B) + kw("REFERENCES") + ident("s2") + [("DOT", ".")] + ident("o") + pid("y") + kw("ON", "UPDATE") + ident("CASCADE"),
+     None),
 ]
+
+
+def _i_fk_full(t):
+    _col(t, B)["references"] = ref("o", "s2", "y", on_update="CASCADE")
+
+
+ITEMS[-1] = (ITEMS[-1][0], ITEMS[-1][1], _i_fk_full)
 NI = len(ITEMS)
-PKS = {0, 1, 2, 3}
+PKS = {0, 1, 2, 3, 15, 16}
 I1 = env_int("VF_I1", -1)
 
 
-def c_items(i1: int, i2: int, inline_pk: bool, inline_unique: bool) -> bool:
-    """
-    C02: columns a, b, c (a optionally inline PRIMARY KEY, c optionally inline UNIQUE) followed
-    by two table-level items (symbolic indices, any order): primary key list, forced NOT NULL,
-    unique flags, named constraints, checks and references exactly as declared.
-
-    pre: 0 <= i1 < NI and 0 <= i2 < NI
-    pre: I1 < 0 or i1 == I1
-    pre: not (i1 in PKS and i2 in PKS) and not (inline_pk and (i1 in PKS or i2 in PKS))
-    pre: i1 != i2
-    post: _
-    """
-    cols_tokens = [ident("a") + ident("int") + (kw("PRIMARY", "KEY") if inline_pk else []),
-                   ident("b") + ident("int"),
-                   ident("c") + ident("int") + (kw("UNIQUE") if inline_unique else [])]
-    t = expected_table([plain_col("a"), plain_col("b"), plain_col("c")], ["a"] if inline_pk else [])
+def _items_case(i1, i2, inline_pk, inline_unique, inline_fk):
+    cols_tokens = [ident(A) + ident("int") + (kw("PRIMARY", "KEY") if inline_pk else []),
+                   ident(B) + ident("int") + ((kw("CONSTRAINT") + ident("g") + kw("REFERENCES") + ident("r") + pid("z")) if inline_fk else []),
+                   ident(C) + ident("int") + (kw("UNIQUE") if inline_unique else [])]
+    t = expected_table([plain_col(A), plain_col(B), plain_col(C)], [A] if inline_pk else [])
+    t["columns"][0]["name"], t["columns"][1]["name"], t["columns"][2]["name"] = A, B, C
     if inline_unique:
-        _col(t, "c")["unique"] = True
+        t["columns"][2]["unique"] = True
+    if inline_fk:
+        t["columns"][1]["references"] = ref("r", None, "z")
+        t["columns"][1]["constraint"] = {"name": "g"}
     ITEMS[i1][2](t)
     ITEMS[i2][2](t)
     for c in t["columns"]:
         if c["name"] in t["primary_key"]:
             c["nullable"] = False
+    return cols_tokens, t
+
+
+def _col(t, name):
+    cs = [c for c in t["columns"] if c["name"] == name]
+    return cs[0]
+
+
+FK_ON_B = {12, 17, 10, 11}
+
+
+def c_items(i1: int, i2: int, inline_pk: bool, inline_unique: bool, inline_fk: bool) -> bool:
+    """
+    C02: three columns (names NAMES; the first optionally inline PRIMARY KEY, the second
+    optionally with an inline named REFERENCES, the third optionally inline UNIQUE) followed by
+    two table-level items (symbolic indices, any order): primary key list, forced NOT NULL,
+    unique flags, named constraints, checks and references exactly as declared, each attached
+    to its own column only.
+
+    pre: 0 <= i1 < NI and 0 <= i2 < NI
+    pre: I1 < 0 or i1 == I1
+    pre: not (i1 in PKS and i2 in PKS) and not (inline_pk and (i1 in PKS or i2 in PKS))
+    pre: i1 != i2
+    pre: not (inline_fk and (i1 in FK_ON_B or i2 in FK_ON_B))
+    pre: len([i for i in (i1, i2) if i in (9, 10, 11, 17)]) <= 1
+    post: _
+    """
+    cols_tokens, t = _items_case(i1, i2, inline_pk, inline_unique, inline_fk)
     out = drive(table_tokens(cols_tokens, [ITEMS[i1][1], ITEMS[i2][1]]))
     if not isinstance(out, dict):
         return False
-    res = fmt([out], "sql")
+    res = norm_refs(fmt([out], "sql"))
     return res == [t]
 
 
@@ -461,19 +496,9 @@ def json_norm(x):
     return json.loads(json.dumps(x))
 
 
-def api_c_items(i1, i2, inline_pk, inline_unique):
+def api_c_items(i1, i2, inline_pk, inline_unique, inline_fk):
     from simple_ddl_parser import DDLParser
-    cols_tokens = [ident("a") + ident("int") + (kw("PRIMARY", "KEY") if inline_pk else []),
-                   ident("b") + ident("int"),
-                   ident("c") + ident("int") + (kw("UNIQUE") if inline_unique else [])]
-    t = expected_table([plain_col("a"), plain_col("b"), plain_col("c")], ["a"] if inline_pk else [])
-    if inline_unique:
-        _col(t, "c")["unique"] = True
-    ITEMS[i1][2](t)
-    ITEMS[i2][2](t)
-    for c in t["columns"]:
-        if c["name"] in t["primary_key"]:
-            c["nullable"] = False
-    ddl = _text(table_tokens(cols_tokens, [ITEMS[i1][1], ITEMS[i2][1]])) + " ;"
-    got = DDLParser(ddl).run()
+    cols_tokens, t = _items_case(i1, i2, inline_pk, inline_unique, inline_fk)
+    ddl = _text(table_tokens(cols_tokens, [ITEMS[i1][1], ITEMS[i2][1]])).replace(" . ", ".") + " ;"
+    got = norm_refs(DDLParser(ddl).run())
     return {"ddl": ddl, "got": got, "expected": [t], "reproduced": got != [t]}
